@@ -46,6 +46,14 @@ def tiered(ctx, quick, thorough):
     return quick if ctx.tier == "quick" else thorough
 
 
+def debug_subset(ctx, lines, k):
+    """a deterministic sample of a batch for the debug build of the crate (overflow checks and debug assertions on)"""
+    if len(lines) <= k:
+        return lines
+    step = len(lines) / float(k)
+    return [lines[int(i * step)] for i in range(k)]
+
+
 # ------------------------------------------------------------------ corpus
 def corpus_lines(component_prefixes):
     import os
@@ -105,7 +113,19 @@ def random_world(ctx, n, maxlen, mk):
 def run_C01(ctx):
     rel = SPECS["C01"]["relevant"]
     C.evaluate(ctx, "corpus", corpus_lines({"raw"}), rel)
-    C.evaluate(ctx, "raw-small-world", small_world_raw(ctx), rel)
+    sw = small_world_raw(ctx)
+    C.evaluate(ctx, "raw-small-world", sw, rel)
+    # the same world against a DEBUG build of the crate (arithmetic overflow checks, debug assertions)
+    C.evaluate(ctx, "raw-small-world-debug", debug_subset(ctx, sw, tiered(ctx, 8000, 80000)), rel, dbg=True)
+    # one sequence diffed against itself over different sub-ranges, the same object passed twice
+    sd = []
+    for a in [list(t) for n_ in range(0, 5) for t in __import__("itertools").product(range(2), repeat=n_)]:
+        for os_, oe in gen.all_ranges(len(a)):
+            for ns, ne in gen.all_ranges(len(a)):
+                for alg in ALGS:
+                    sd.append("repeat alg=%s or=%d:%d nr=%d:%d reps=1 old=%s new=%s" % (alg, os_, oe, ns, ne, gen.fmt_list(a), gen.fmt_list(a)))
+                    ctx.count("repeat:self-diff-same-object")
+    C.evaluate(ctx, "self-diff-same-object", sd, lambda comp, kv: {"no_panic", "deterministic"})
     n = tiered(ctx, 3000, 30000)
     lines = random_world(ctx, n, tiered(ctx, 40, 120),
                          lambda a, b, r, idx: [gen.raw_line(alg, a, b, r, idx=idx) for alg in ALGS])
@@ -116,6 +136,7 @@ def run_C01(ctx):
 
 
 SPECS["C01"] = dict(
+    need_debug=True,
     level="proof",
     manifest=dict(
         text="Machine-checked theorems (Props/C01.v, all closed under the global context, no size bound): for every comparison oracle, every in-bounds pair of ranges and EVERY deadline clock, the calls Myers and LCS deliver to a recording hook form a strong raw walk (positive lengths, contiguous cursors, element-wise equal Equal segments, exact Delete index, Insert index within its run), which implies the property's run-relative reading (c01_strong_implies_spec) and finish-last; neither algorithm panics or runs out of fuel (c01_myers_no_panic rests on the full proof of the bidirectional middle-snake search: c01_snake_spec); replaying the callbacks reproduces the new range. Patience validity is proved in the same style (c01_patience_valid, c01_patience_no_panic). The sub-range clause is a theorem too: diffing ranges (os..oe, ns..ne) equals diffing the sequences cut at os / ns on (0..oe-os, 0..ne-ns) with os / ns added to every reported index, for all three algorithms, every clock, raw and through the capture pipeline, with equal panics and counters (c01_raw_shift, c01_raw_shift_slices, c01_capture_shift); the correspondence additionally runs all sub-ranges and offset lookups on the real crate. The extracted check_raw (reflection proved) is run on every call log of the real crate.",
@@ -179,7 +200,9 @@ def capture_with_deadlines(ctx, pairs, algs=ALGS, repair=0):
 def run_C02(ctx):
     rel = SPECS["C02"]["relevant"]
     C.evaluate(ctx, "corpus", corpus_lines({"capture"}), rel)
-    C.evaluate(ctx, "capture-small-world", small_world_capture(ctx), rel)
+    sw = small_world_capture(ctx)
+    C.evaluate(ctx, "capture-small-world", sw, rel)
+    C.evaluate(ctx, "capture-small-world-debug", debug_subset(ctx, sw, tiered(ctx, 8000, 80000)), rel, dbg=True)
     lines = random_world(ctx, tiered(ctx, 2000, 20000), tiered(ctx, 40, 120),
                          lambda a, b, r, idx: [gen.capture_line(alg, a, b, r, idx=idx) for alg in ALGS])
     C.evaluate(ctx, "capture-random", lines, rel)
@@ -203,6 +226,7 @@ def run_C02(ctx):
 
 
 SPECS["C02"] = dict(
+    need_debug=True,
     level="proof",
     manifest=dict(
         text="Machine-checked theorems (Props/C02.v, closed under the global context): for Myers and LCS, every comparison oracle, every in-bounds pair of ranges, EVERY deadline clock, both build modes: capture_diff never panics and returns ops that walk both ranges left to right without gap or overlap with element-wise equal Equal ops (OpsLoose); applying them to old yields new and the inverted ops turn new into old; identical inputs give exactly one Equal (none for empty inputs); the exact ratio 2*matches/(N+M) is in [0,1] and equals 1 iff the inputs are equal. The proof composes raw validity (C01), the buffering simulation through Compact, Compact's 12 rewrite arms and Replace. The c02_*_all theorems state the same for all three algorithms including Patience (validity, completion, application, ratio; identical inputs give one Equal provided the two uniqueness oracles agree on the identical ranges, which any consistent item equality satisfies; debug assertions never change a result). The extracted check_ops_loose (reflection proved) runs on every captured op list of the real crate incl. TextDiff::ops.",
@@ -465,7 +489,9 @@ SPECS["C08"] = dict(
 def run_C09(ctx):
     rel = SPECS["C09"]["relevant"]
     C.evaluate(ctx, "corpus", corpus_lines({"capture", "adapter"}), rel)
-    C.evaluate(ctx, "capture-small-world", small_world_capture(ctx), rel)
+    sw = small_world_capture(ctx)
+    C.evaluate(ctx, "capture-small-world", sw, rel)
+    C.evaluate(ctx, "capture-small-world-debug", debug_subset(ctx, sw, tiered(ctx, 8000, 80000)), rel, dbg=True)
     lines = random_world(ctx, tiered(ctx, 2000, 20000), tiered(ctx, 40, 120),
                          lambda a, b, r, idx: [gen.capture_line(alg, a, b, r, idx=idx) for alg in ALGS])
     C.evaluate(ctx, "capture-random", lines, rel)
@@ -487,6 +513,7 @@ def run_C09(ctx):
 
 
 SPECS["C09"] = dict(
+    need_debug=True,
     level="proof",
     manifest=dict(
         text="Machine-checked theorems (Props/C09.v, closed under the global context): captured ops strictly alternate Equal / non-Equal with no empty op (so a deletion adjacent to an insertion is one Replace), for every clock and build mode, and Replace produces this from ANY loosely valid non-empty script. The 'insert sits at its latest position' clause is proved too (c09_capture_normal_form for all three algorithms and every clock; c09_compact_replace_normal_form for any valid script without empty ops through Compact+Replace; c09_needs_nonempty shows the premise is necessary). The extracted check_normal (reflection proved) decides the same on every captured list of the real crate and on all valid scripts of small pairs pushed through Compact+Replace.",
@@ -911,11 +938,14 @@ def run_C04(ctx):
                 for mode in ("str", "bytes"):
                     cases.append((tok, alg, mode, None, "-", o, n))
     C.evaluate(ctx, "corpus", corpus_lines({"textdiff"}), rel, nontrivial=nontrivial_text)
-    C.evaluate(ctx, "textdiff", textdiff_lines(ctx, cases), rel, nontrivial=nontrivial_text)
+    tl = textdiff_lines(ctx, cases)
+    C.evaluate(ctx, "textdiff", tl, rel, nontrivial=nontrivial_text)
+    C.evaluate(ctx, "textdiff-debug-build", debug_subset(ctx, tl, tiered(ctx, 3000, 30000)), rel, dbg=True, nontrivial=nontrivial_text)
     C.evaluate(ctx, "textdiff-65536-distinct", huge_distinct_cases(ctx), rel, x=False, cap=300, nontrivial=nontrivial_text)
 
 
 SPECS["C04"] = dict(
+    need_debug=True,
     level=("proof" if __import__("os").path.exists(__import__("os").path.join(C.VERIF, "coq", "Props", "C04.v")) else "translation_validation"),
     manifest=dict(
         text='Machine-checked theorems (Props/C04.v when present; Proofs/TextReconstruct.v): for token lists that partition the texts and any loosely valid op list over the token items, whole-diff iteration never panics, the values of the non-Insert changes concatenate to the old text and of the non-Delete changes to the new text, and indices have the documented shape, composed with the tokenizer theorems (C06) and the pipeline (C02) for lines/words/chars/lines+newlines in str and byte mode; for unicode words / graphemes the tokenization is an oracle replayed from the implementation, of which only losslessness is assumed and checked on every case. The checker runs reconstruct_old/new, change_index_shape and tokens_lossless on the real TextDiff output.',
@@ -1260,6 +1290,17 @@ def run_C20(ctx):
         r = gen.rand_subranges(ctx.rng, a, b)
         lines.append("repeat alg=%s or=%d:%d nr=%d:%d reps=5 old=%s new=%s" % (ctx.rng.choice(ALGS), r[0], r[1], r[2], r[3], gen.fmt_list(a), gen.fmt_list(b)))
         ctx.count("repeat:random (x20 executions in 4 threads, 4 relabellings)")
+    # one sequence diffed against itself over different sub-ranges (the harness passes the same object twice)
+    for a in [list(t) for n in range(0, 5) for t in __import__("itertools").product(range(2), repeat=n)]:
+        for os_, oe in gen.all_ranges(len(a)):
+            for ns, ne in gen.all_ranges(len(a)):
+                lines.append("repeat alg=%s or=%d:%d nr=%d:%d reps=1 old=%s new=%s" % (ctx.rng.choice(ALGS), os_, oe, ns, ne, gen.fmt_list(a), gen.fmt_list(a)))
+                ctx.count("repeat:self-diff-subranges")
+    for _ in range(tiered(ctx, 150, 1500)):
+        a = gen.rand_seq(ctx.rng, ctx.rng.randrange(1, 30), ctx.rng.choice([2, 3, 10]))
+        r = gen.rand_subranges(ctx.rng, a, a)
+        lines.append("repeat alg=%s or=%d:%d nr=%d:%d reps=1 old=%s new=%s" % (ctx.rng.choice(ALGS), r[0], r[1], r[2], r[3], gen.fmt_list(a), gen.fmt_list(a)))
+        ctx.count("repeat:self-diff-subranges")
     # full ranges just above 100 items (size switches of the slice entry points), small and large alphabets
     for _ in range(tiered(ctx, 60, 600)):
         n = ctx.rng.choice([101, 120, 160])
@@ -1416,6 +1457,13 @@ def run_C18(ctx):
                 cands.append("".join(w))
             if cands and ctx.rng.random() < 0.5:
                 cands.append(ctx.rng.choice(cands))
+            # prefixes and extensions of the word (the harness makes them sub-slices of one buffer with the word)
+            if word and ctx.rng.random() < 0.4:
+                for _ in range(ctx.rng.randrange(1, 4)):
+                    cands.append(word[:ctx.rng.randrange(0, len(word) + 1)])
+                if ctx.rng.random() < 0.5:
+                    cands.append(word + ctx.rng.choice(["x", "ab", "é"]))
+                ctx.rng.shuffle(cands)
         # cutoffs: 0, 1, and every ratio value hit exactly, its successor and predecessor
         cut = {f32_bits(0.0), f32_bits(1.0), f32_bits(0.6), f32_bits(0.5)}
         for c in cands:
